@@ -287,11 +287,16 @@ pub fn make_module() -> KMap {
 
                     let mut write_index = 0;
                     for read_index in 0..l.len() {
-                        let value = l.data()[read_index].clone();
+                        // The list might have been modified while the predicate was being called
+                        let Some(value) = l.data().get(read_index).cloned() else {
+                            break;
+                        };
                         match ctx.vm.call_function(f.clone(), value.clone()) {
                             Ok(KValue::Bool(result)) => {
                                 if result {
-                                    l.data_mut()[write_index] = value;
+                                    if let Some(retained) = l.data_mut().get_mut(write_index) {
+                                        *retained = value;
+                                    }
                                     write_index += 1;
                                 }
                             }
